@@ -57,7 +57,8 @@ type Engine struct {
 	typeInvs      []*typeInvInfo
 	sumCache      map[*ssa.Function]*modSummary
 	unproved      map[string]bool
-	globalDynType map[string]types.Type // dynamic type of interface globals set once in init // obligations explicitly left unproved at enrolment (nil checks)
+	globalDynType map[string]types.Type
+	globalInit    map[string][]globalInitCell // constant field initialisers of struct globals // dynamic type of interface globals set once in init // obligations explicitly left unproved at enrolment (nil checks)
 	sumFrame      *frame
 	AllRepoPkgs   []*packages.Package
 	byName        map[string]*types.Package
@@ -69,6 +70,11 @@ type typeInvInfo struct {
 	pkg *types.Package
 	ty  types.Type // named (value) type
 	ptr bool
+}
+
+type globalInitCell struct {
+	cell int // index into objCells order (flattened leaf fields)
+	val  *ssa.Const
 }
 
 type lemmaInfo struct {
@@ -84,7 +90,7 @@ func NewEngine(opts Options, patterns []string) (*Engine, error) {
 	e := &Engine{opts: opts, repoPkgs: map[*types.Package]bool{}, funcC: map[*ssa.Function]*FuncC{}, funcCPkg: map[*FuncC]*types.Package{},
 		externs: map[string]*FuncC{}, externPkg: map[*FuncC]*types.Package{}, specs: map[string]*specInfo{}, nopanic: map[*ssa.Function][]string{},
 		tags: map[string]int{}, funcIDs: map[string]int{}, implQueries: map[string]implQ{}, inlineOK: map[*ssa.Function]bool{},
-		closureFn: map[string]*ssa.Function{}, typeCache: map[string]types.Type{}, mutGlobals: map[string]bool{}, pureCache: map[*ssa.Function]bool{}, sumCache: map[*ssa.Function]*modSummary{}, unproved: map[string]bool{}, globalDynType: map[string]types.Type{}, byName: map[string]*types.Package{}}
+		closureFn: map[string]*ssa.Function{}, typeCache: map[string]types.Type{}, mutGlobals: map[string]bool{}, pureCache: map[*ssa.Function]bool{}, sumCache: map[*ssa.Function]*modSummary{}, unproved: map[string]bool{}, globalDynType: map[string]types.Type{}, globalInit: map[string][]globalInitCell{}, byName: map[string]*types.Package{}}
 	cfg := &packages.Config{Mode: packages.LoadAllSyntax | packages.NeedModule, Dir: opts.RepoDir, BuildFlags: []string{"-tags=verif"},
 		Env: append(os.Environ(), "GOFLAGS=-mod=mod", "GOPROXY=off", "GOSUMDB=off", "GOTOOLCHAIN=local")}
 	pkgs, err := packages.Load(cfg, patterns...)
@@ -185,6 +191,33 @@ func (e *Engine) scanGlobalStores() {
 			for _, b := range fn.Blocks {
 				for _, in := range b.Instrs {
 					if s, ok := in.(*ssa.Store); ok {
+						if root, idx, ok := leafIndex(s.Addr); ok {
+							if g, isG := root.(*ssa.Global); isG {
+								if cv, isC := s.Val.(*ssa.Const); isC {
+									e.globalInit[compGlobal(g)] = append(e.globalInit[compGlobal(g)], globalInitCell{idx, cv})
+								}
+							}
+						}
+						// G = *local where local is a composite literal filled with constants
+						if g, isG := s.Addr.(*ssa.Global); isG {
+							if ld, isLd := s.Val.(*ssa.UnOp); isLd && ld.Op == token.MUL {
+								if al, isAl := ld.X.(*ssa.Alloc); isAl {
+									for _, b2 := range fn.Blocks {
+										for _, in2 := range b2.Instrs {
+											s2, ok := in2.(*ssa.Store)
+											if !ok {
+												continue
+											}
+											if root, idx, ok := leafIndex(s2.Addr); ok && root == ssa.Value(al) {
+												if cv, isC := s2.Val.(*ssa.Const); isC {
+													e.globalInit[compGlobal(g)] = append(e.globalInit[compGlobal(g)], globalInitCell{idx, cv})
+												}
+											}
+										}
+									}
+								}
+							}
+						}
 						if g, ok := s.Addr.(*ssa.Global); ok {
 							if _, isI := g.Type().(*types.Pointer).Elem().Underlying().(*types.Interface); isI {
 								key := compGlobal(g)
@@ -696,6 +729,10 @@ func (e *Engine) VerifyFunc(fn *ssa.Function) (vc *VC) {
 		}
 		env := f.baseEnv(rst)
 		f.anchorAt(env, r.instr, false)
+		// in postconditions a parameter name always denotes the entry value
+		for n, tv := range f.params {
+			env.vars[n] = tv
+		}
 		sig := fn.Signature
 		for k, rv := range r.results {
 			env.vars[fmt.Sprintf("result%d", k)] = rv
@@ -828,4 +865,54 @@ func (e *Engine) typeInvObligations(f *frame, fn *ssa.Function, args []TV, r ret
 			}
 		}
 	}
+}
+
+// globalLeafIndex: addr is &G.f1.f2... for a struct global G; returns the index
+// of that leaf in the flattened field order used by objCells.
+func leafIndex(addr ssa.Value) (ssa.Value, int, bool) {
+	var path []int
+	for {
+		fa, ok := addr.(*ssa.FieldAddr)
+		if !ok {
+			break
+		}
+		path = append([]int{fa.Field}, path...)
+		addr = fa.X
+	}
+	if len(path) == 0 {
+		return nil, 0, false
+	}
+	pt, ok := addr.Type().Underlying().(*types.Pointer)
+	if !ok {
+		return nil, 0, false
+	}
+	g := addr
+	t := pt.Elem()
+	idx := 0
+	var count func(t types.Type) int
+	count = func(t types.Type) int {
+		st, ok := t.Underlying().(*types.Struct)
+		if !ok {
+			return 1
+		}
+		n := 0
+		for i := 0; i < st.NumFields(); i++ {
+			n += count(st.Field(i).Type())
+		}
+		return n
+	}
+	for _, fi := range path {
+		st, ok := t.Underlying().(*types.Struct)
+		if !ok {
+			return nil, 0, false
+		}
+		for i := 0; i < fi; i++ {
+			idx += count(st.Field(i).Type())
+		}
+		t = st.Field(fi).Type()
+	}
+	if _, isStruct := t.Underlying().(*types.Struct); isStruct {
+		return nil, 0, false
+	}
+	return g, idx, true
 }
